@@ -4,6 +4,7 @@ import (
 	"errors"
 	"fmt"
 	"strings"
+	"time"
 
 	"github.com/samber/ro"
 	"verif.local/harness/cat"
@@ -69,9 +70,13 @@ func c01Concurrent(tier string) []fw.Scenario {
 	var scns []fw.Scenario
 	for _, d := range dests {
 		d := d
-		for _, down := range []string{"", "Map", "Take(1)", "Scan"} {
-			down := down
-			scns = append(scns, fw.Scenario{ID: "C01/conc/" + d.name + "/" + down, Group: d.name, Run: func(c *fw.Ctx) {
+		for _, down := range []string{"", "Map", "Take(1)", "Scan", "raw:", "raw:Map"} {
+			// "raw:" = the final observer implements ro.Observer by hand (no status guard of its own: the
+			// library's subscriber is the only thing between a late notification and the user)
+			raw := strings.HasPrefix(down, "raw:")
+			downName := down
+			down := strings.TrimPrefix(down, "raw:")
+			scns = append(scns, fw.Scenario{ID: "C01/conc/" + d.name + "/" + downName, Group: d.name, Run: func(c *fw.Ctx) {
 				for _, wa := range wordsA {
 					for _, wb := range wordsB {
 						wa, wb := wa, wb
@@ -83,6 +88,7 @@ func c01Concurrent(tier string) []fw.Scenario {
 						c.Explore(fw.Case{Name: nm, Bound: b, Sample: down == "", Make: func() fw.Instance {
 							rec := h.NewRec("out")
 							rec.YieldIn = true
+							rec.Raw = raw
 							var hooks *h.Hooks
 							body := func() {
 								hooks = h.BeginHooks()
@@ -100,7 +106,7 @@ func c01Concurrent(tier string) []fw.Scenario {
 							}
 							return fw.Instance{Body: body, Outcome: rec.Trace, Nontrivial: func(r *vrt.Result) bool { return r.Switches > 2 }, Check: func(r *vrt.Result) []fw.Violation {
 								var out []fw.Violation
-								sig := "concurrent/" + d.name + "+" + down
+								sig := "concurrent/" + d.name + "+" + downName
 								evs := rec.Events()
 								if g := h.GrammarError(evs); g != "" {
 									out = append(out, fw.V(sig+"/grammar/"+grammarClass(evs), nm+": "+g))
@@ -322,6 +328,86 @@ func c03Races(tier string) []fw.Scenario {
 	return scns
 }
 
+// c03MultiSourcePanics: operators that hold several upstream subscriptions release every one of them
+// exactly once even when some of the sources' teardowns panic ("a panicking teardown does not stop the
+// others from running") - for every non-empty subset of panicking sources and for the ways a stream ends.
+func c03MultiSourcePanics() []fw.Scenario {
+	var scns []fw.Scenario
+	for _, op := range c05Ops() {
+		op := op
+		scns = append(scns, fw.Scenario{ID: "C03/multi-source-panicking-teardowns/" + op.name, Group: "multi-source", Run: func(c *fw.Ctx) {
+			for mask := 0; mask < 1<<op.k; mask++ {
+				for _, via := range []string{"Unsubscribe", "source0-error", "source0-value-then-Unsubscribe"} {
+					mask, via := mask, via
+					nm := fmt.Sprintf("%s/panicking-sources-%0*b/%s", op.name, op.k, mask, via)
+					c.Explore(fw.Case{Name: nm, Opts: vrt.Options{Horizon: 40000}, Make: func() fw.Instance {
+						out := h.NewRec("out")
+						set := &recSet{}
+						srcs := make([]*h.Src, op.k)
+						var caught string
+						ended := false
+						body := func() {
+							obs := make([]ro.Observable[int], op.k)
+							push := make([]*h.Push[int], op.k)
+							for i := range srcs {
+								srcs[i] = h.NewSrc(fmt.Sprint("s", i))
+								srcs[i].PanicOnTear = mask&(1<<i) != 0
+								obs[i], push[i] = h.Pushed[int](srcs[i], h.Unsafe)
+							}
+							var subscription ro.Subscription
+							guard(&caught, "Subscribe", func() { subscription = op.build(obs, set, out) })
+							if subscription == nil {
+								return
+							}
+							switch via {
+							case "Unsubscribe":
+								guard(&caught, "Unsubscribe", func() { subscription.Unsubscribe() })
+								ended = true
+							case "source0-value-then-Unsubscribe":
+								guard(&caught, "Next", func() { push[0].Next(1) })
+								guard(&caught, "Unsubscribe", func() { subscription.Unsubscribe() })
+								ended = true
+							case "source0-error":
+								guard(&caught, "Error", func() { push[0].Error(h.ErrSrc) })
+								ended = subscription.IsClosed()
+							}
+							vrt.Settle()
+						}
+						return fw.Instance{Body: body, Outcome: func() string { return out.Trace() + " caught=" + fmt.Sprint(caught != "") }, Nontrivial: func(r *vrt.Result) bool { return ended },
+							Check: func(r *vrt.Result) []fw.Violation {
+								if !ended {
+									return nil // this operator does not end on an error of its first source: nothing to release yet
+								}
+								var outv []fw.Violation
+								sig := "multi-source/" + op.name
+								for i, sc := range srcs {
+									if sc == nil {
+										continue
+									}
+									subs, tears, _, _ := sc.Get()
+									if tears != subs {
+										cls := "skipped"
+										if tears > subs {
+											cls = "repeated"
+										}
+										outv = append(outv, fw.V(sig+"/upstream-released-exactly-once-despite-panicking-teardowns/"+cls,
+											fmt.Sprintf("%s: source %d was subscribed %d times and released %d times (sources whose teardown panics: %0*b)", nm, i, subs, tears, op.k, mask)))
+										break
+									}
+								}
+								if r.Crash != nil {
+									outv = append(outv, fw.V(sig+"/goroutine-top-panic/"+r.Crash.Name, nm+": "+r.Crash.Value))
+								}
+								return outv
+							}}
+					}})
+				}
+			}
+		}})
+	}
+	return scns
+}
+
 // ---------------------------------------------------------------- C08 hand-off
 // ObserveOn(n), SubscribeOn(n), ToChannel(n): output = input in order, terminal last, and the producer is
 // never ahead of the consumer by more than n + 2.
@@ -344,12 +430,107 @@ func (f *flow) cons() { f.consumed++ }
 //go:norace
 func (f *flow) ahead() int { return f.maxAhead }
 
+// c08ToChannel: a producer thread pushes the word through ToChannel(n); a consumer thread reads the
+// channel until it is closed, yielding around every read (arbitrary slowness).
+func c08ToChannel(n int, word []h.Ev, bound int) fw.Case {
+	nm := fmt.Sprintf("ToChannel(%d):%s", n, h.Word(word))
+	return fw.Case{Name: nm, Bound: bound, Opts: vrt.Options{Horizon: 60000, MaxTime: int64(20 * time.Millisecond)}, Make: func() fw.Instance {
+		rec := h.NewRec("out")
+		cr := &chanReads{}
+		fl := &flow{}
+		body := func() {
+			src := h.NewSrc("src")
+			obs, push := h.Pushed[int](src, h.Unsafe)
+			rec.Hook = func(r *h.Rec, idx int, e h.Ev) {
+				if e.K == h.N {
+					cr.setChan(e.V.(<-chan ro.Notification[int]))
+				}
+			}
+			ro.ToChannel[int](n)(obs).Subscribe(h.Observer[<-chan ro.Notification[int]](rec))
+			vrt.GoNamed("producer", func() {
+				vrt.Point(vrt.OpUser, 0, func() bool { k, _, _, _ := src.Get(); return k > 0 })
+				for _, e := range word {
+					if e.K == h.N {
+						fl.prod()
+					}
+					push.Emit(e)
+				}
+			})
+			vrt.GoNamed("consumer", func() {
+				ch, _ := cr.get()
+				if ch == nil {
+					return
+				}
+				for {
+					vrt.Yield()
+					nt, ok := vrt.Recv2(ch)
+					if !ok {
+						cr.setClosed()
+						return
+					}
+					cr.add(nt)
+					if nt.Kind == ro.KindNext {
+						fl.cons()
+					}
+					vrt.Yield()
+				}
+			})
+		}
+		return fw.Instance{Body: body, Outcome: func() string { return notifString(cr.items) + fmt.Sprint(" closed=", cr.closed) },
+			Nontrivial: func(r *vrt.Result) bool { return len(cr.items) > 0 }, Check: func(r *vrt.Result) []fw.Violation {
+				if ch, _ := cr.get(); ch == nil {
+					return nil // the observer never got the channel: C17's known finding, not a queueing matter
+				}
+				var out []fw.Violation
+				sig := fmt.Sprintf("handoff/ToChannel(%d)", n)
+				want := materialized(word)
+				if notifString(cr.items) != notifString(want) {
+					cls := "lost-or-reordered"
+					if len(cr.items) < len(want) && notifString(cr.items) == notifString(want[:len(cr.items)]) {
+						cls = "terminal-or-tail-lost"
+					}
+					out = append(out, fw.V(sig+"/fifo-no-loss/"+cls, fmt.Sprintf("%s: the consumer read [%s] until the channel was closed=%v; pushed [%s]", nm, notifString(cr.items), cr.closed, notifString(want))))
+				}
+				if a := fl.ahead(); a > n+2 {
+					out = append(out, fw.V(sig+"/producer-runs-ahead/capacity", fmt.Sprintf("%s: the producer was %d values ahead of the consumer (capacity %d + 2)", nm, a, n)))
+				}
+				if r.Crash != nil {
+					out = append(out, fw.V(sig+"/goroutine-top-panic/"+r.Crash.Name, r.Crash.Value))
+				}
+				if bl := blockedExcept(r, ""); bl != "" {
+					out = append(out, fw.V(sig+"/blocked/"+bl, nm+": "+bl))
+				}
+				return out
+			}}
+	}}
+}
+
 func c08HandOff(tier string) []fw.Scenario {
 	bound := 2
 	if tier == "thorough" {
 		bound = 3
 	}
 	var scns []fw.Scenario
+	// ToChannel(n): the queue is the channel handed to the observer; the consumer is whoever reads it
+	for _, n := range []int{0, 1, 2} {
+		n := n
+		scns = append(scns, fw.Scenario{ID: fmt.Sprintf("C08/handoff/ToChannel(%d)", n), Group: "ToChannel", Run: func(c *fw.Ctx) {
+			for length := 0; length <= n+2; length++ {
+				for _, end := range []h.Kind{h.C, h.E} {
+					var word []h.Ev
+					for i := 1; i <= length; i++ {
+						word = append(word, h.Nx(i))
+					}
+					if end == h.C {
+						word = append(word, h.Co())
+					} else {
+						word = append(word, h.Er(h.ErrSrc))
+					}
+					c.Explore(c08ToChannel(n, word, bound-1))
+				}
+			}
+		}})
+	}
 	for _, kind := range []string{"ObserveOn", "SubscribeOn"} {
 		kind := kind
 		for _, n := range []int{1, 2, 3} {
@@ -476,6 +657,94 @@ func c08HandOff(tier string) []fw.Scenario {
 }
 
 // ---------------------------------------------------------------- C09 extras: creation operators and subjects
+// c09ItemContexts: operators that hand values over to timers or other goroutines keep each value together
+// with the context it arrived with (1:1 operators: the item marker of delivered value k is the marker the
+// source attached to value k), under every schedule of those goroutines within the bound.
+func c09ItemContexts(tier string) []fw.Scenario {
+	bound := 2
+	if tier == "thorough" {
+		bound = 3
+	}
+	ops := []struct {
+		name string
+		op   func(ro.Observable[int]) ro.Observable[int]
+	}{
+		{"Delay(0)", ro.Delay[int](0)},
+		{"Delay(1u)", ro.Delay[int](u)},
+		{"DelayEach(1u)", ro.DelayEach[int](u)},
+		{"ObserveOn(1)", ro.ObserveOn[int](1)},
+		{"ObserveOn(2)", ro.ObserveOn[int](2)},
+		{"SubscribeOn(2)", ro.SubscribeOn[int](2)},
+		{"Timeout(10u)", ro.Timeout[int](10 * u)},
+		{"Serialize", ro.Serialize[int]()},
+		{"Delay(1u)|Map", func(o ro.Observable[int]) ro.Observable[int] {
+			return ro.Map(func(v int) int { return v })(ro.Delay[int](u)(o))
+		}},
+		{"ThrowOnContextCancel", ro.ThrowOnContextCancel[int]()},
+	}
+	words := [][]h.Ev{{h.Nx(1), h.Nx(2), h.Co()}, {h.Nx(1), h.Nx(2), h.Nx(3)}, {h.Nx(1), h.Er(h.ErrSrc)}}
+	var scns []fw.Scenario
+	for _, op := range ops {
+		op := op
+		scns = append(scns, fw.Scenario{ID: "C09/item-context/" + op.name, Group: "item-context", Run: func(c *fw.Ctx) {
+			for _, w := range words {
+				for _, slow := range []bool{false, true} {
+					w, slow := w, slow
+					nm := fmt.Sprintf("%s:[%s] slow-observer=%v", op.name, h.Word(w), slow)
+					c.Explore(fw.Case{Name: nm, Bound: bound, Opts: vrt.Options{Horizon: 40000, MaxTime: int64(20 * u), DelayBounded: strings.HasPrefix(op.name, "ObserveOn") || strings.HasPrefix(op.name, "SubscribeOn")}, Make: func() fw.Instance {
+						rec := h.NewRec("out")
+						if slow {
+							rec.Hook = func(r *h.Rec, idx int, e h.Ev) {
+								if e.K == h.N && idx == 0 {
+									vrt.HSleep(int64(3 * u))
+								}
+							}
+						}
+						body := func() {
+							src := h.NewSrc("src")
+							o, push := h.Pushed[int](src, h.Unsafe)
+							vrt.GoNamed("subscribe", func() { sub(op.op(o), rec) })
+							vrt.Point(vrt.OpUser, 0, func() bool { k, _, _, _ := src.Get(); return k > 0 })
+							for _, e := range w {
+								push.Emit(e)
+							}
+						}
+						return fw.Instance{Body: body, Outcome: func() string { return ctxOutcomeOf(rec) }, Check: func(r *vrt.Result) []fw.Violation {
+							var out []fw.Violation
+							sig := "item-context/" + op.name
+							for _, en := range rec.Log {
+								kind := [...]string{"next", "error", "complete"}[en.K]
+								if en.CtxNil {
+									return append(out, fw.V(sig+"/nil-context/"+kind, fmt.Sprintf("%s: the %s callback received a nil context", nm, kind)))
+								}
+								if en.Sub != "sub" {
+									return append(out, fw.V(sig+"/subscription-value-lost/"+kind, fmt.Sprintf("%s: the value attached at SubscribeWithContext is not visible in the %s callback (%s)", nm, kind, en.Ev.Short())))
+								}
+								if en.K == h.N {
+									want := en.V.(int) - 1 // the k-th pushed value is k+1 and carries item marker k
+									if en.Item != want {
+										return append(out, fw.V(sig+"/item-context-of-another-notification/next", fmt.Sprintf("%s: value %v was delivered with the context of item %v (its own is item %d); trace %s", nm, en.V, en.Item, want, ctxOutcomeOf(rec))))
+									}
+								}
+							}
+							return out
+						}}
+					}})
+				}
+			}
+		}})
+	}
+	return scns
+}
+
+func ctxOutcomeOf(rec *h.Rec) string {
+	var sb strings.Builder
+	for _, en := range rec.Log {
+		fmt.Fprintf(&sb, "%s[item=%v] ", en.Ev.Short(), en.Item)
+	}
+	return sb.String()
+}
+
 func c09Extra(tier string) []fw.Scenario {
 	type prog struct {
 		name string
@@ -522,7 +791,7 @@ func c09Extra(tier string) []fw.Scenario {
 		})},
 		{"Just|Retry", mkObs(func() ro.Observable[int] { return ro.Retry[int]()(ro.Just(1)) })},
 	}
-	var scns []fw.Scenario
+	scns := c09ItemContexts(tier)
 	// the concurrent drivers of C02 and C05, judged by the context clauses: a context can also be lost in
 	// a window between two goroutines (every subscription of those drivers carries the subscription marker)
 	ctxOracle := func(recs []*h.Rec, r *vrt.Result) []fw.Violation {
